@@ -249,7 +249,7 @@ Definition loop_step (self : list mtok -> nat -> nat -> option nat -> xres) (inn
               | SOk rest args =>
                   if Nat.eqb (m_params m) 0 then
                     match args with
-                    | [[]] => step rest []
+                    | [a] => if forallb is_ws a then step rest [] else XErr MacroExpectsDifferentNumberOfArguments
                     | _ => XErr MacroExpectsDifferentNumberOfArguments
                     end
                   else if Nat.eqb (List.length args) (m_params m) then step rest args
